@@ -43,17 +43,17 @@ fn c02_shard(ctx: &Ctx, out: &mut ShardOut) {
     let n_copy = ctx.share(ctx.by_tier(600, 20_000)) as u32;
     drive(ctx, "map", ctx.shard_seed(1), n_map, seq_case_strategy(false, 200), out, |c| {
         let s = run_map_case(c, C02_OR).map_err(|f| to_casefail("C02", f))?;
-        Ok(CaseInfo { nontrivial: mechanisms(&s) >= 2, classes: stats_classes(&s), evaluations: 1 })
+        Ok(CaseInfo { nontrivial: mechanisms(&s) >= 2, classes: stats_classes(&s), evaluations: 1, sub_hashes: vec![] })
     });
     drive(ctx, "set", ctx.shard_seed(2), n_set, seq_case_strategy(true, 150), out, |c| {
         let s = run_set_case(c, C02_OR).map_err(|f| to_casefail("C02", f))?;
         let mut cl = stats_classes(&s);
         cl.push(("set_cases", 1));
-        Ok(CaseInfo { nontrivial: mechanisms(&s) >= 2, classes: cl, evaluations: 1 })
+        Ok(CaseInfo { nontrivial: mechanisms(&s) >= 2, classes: cl, evaluations: 1, sub_hashes: vec![] })
     });
     drive(ctx, "copyapi", ctx.shard_seed(3), n_copy, copy_case_strategy(), out, |c| {
         run_copy_case(c).map_err(|m| CaseFail { prop: "C02".into(), msg: m })?;
-        Ok(CaseInfo { nontrivial: c.items.len() > 12 && c.hint < 128, classes: vec![("copyapi_cases", 1)], evaluations: 1 })
+        Ok(CaseInfo { nontrivial: c.items.len() > 12 && c.hint < 128, classes: vec![("copyapi_cases", 1)], evaluations: 1, sub_hashes: vec![] })
     });
 }
 
@@ -176,6 +176,273 @@ fn run_copy_case(c: &CopyCase) -> Result<(), String> {
     Ok(())
 }
 
+
+/* ------------------------------------ C05 ------------------------------------ */
+
+const C05_OR: Oracles = Oracles { returns: false, quiescent: true, ledger: false, canary: false, capacity: false, cmp_bound: false, growth: false };
+
+fn c05_shard(ctx: &Ctx, out: &mut ShardOut) {
+    let n_map = ctx.share(ctx.by_tier(6000, 150_000)) as u32;
+    let n_set = ctx.share(ctx.by_tier(1500, 40_000)) as u32;
+    drive(ctx, "map", ctx.shard_seed(1), n_map, seq_case_strategy(false, 160), out, |c| {
+        let s = run_map_case(c, C05_OR).map_err(|f| to_casefail("C05", f))?;
+        Ok(CaseInfo { nontrivial: s.resizes + s.treeify + s.untreeify > 0, classes: stats_classes(&s), evaluations: s.steps.max(1), sub_hashes: vec![] })
+    });
+    drive(ctx, "set", ctx.shard_seed(2), n_set, seq_case_strategy(true, 120), out, |c| {
+        let s = run_set_case(c, C05_OR).map_err(|f| to_casefail("C05", f))?;
+        Ok(CaseInfo { nontrivial: s.resizes + s.treeify + s.untreeify > 0, classes: stats_classes(&s), evaluations: s.steps.max(1), sub_hashes: vec![] })
+    });
+    // quiescent points after concurrent histories (the executor checks agreement and well-formedness after join)
+    let pool = crate::sched::Pool::new();
+    let b = super::concchecks::budget_for(ctx.tier, ctx.shard_seed(5));
+    super::concchecks::C05C.run(ctx, &pool, 21, ctx.share(ctx.by_tier(200, 8_000)) as u32, &b, out);
+    super::concchecks::C05R.run(ctx, &pool, 22, ctx.share(ctx.by_tier(120, 6_000)) as u32, &b, out);
+}
+
+fn c05_replay(sub: &str, case: &Value) -> Result<(), CaseFail> {
+    match sub {
+        "conc" => super::concchecks::C05C.replay(&crate::sched::Pool::new(), case, &super::concchecks::budget_for(Tier::Thorough, 1)),
+        "conc-resize" => super::concchecks::C05R.replay(&crate::sched::Pool::new(), case, &super::concchecks::budget_for(Tier::Thorough, 1)),
+        _ => replay_seq("C05", sub, case, C05_OR),
+    }
+}
+
+/* ------------------------------------ C04 ------------------------------------ */
+
+const C04_OR: Oracles = Oracles { returns: false, quiescent: false, ledger: true, canary: true, capacity: false, cmp_bound: false, growth: false };
+
+fn c04_shard(ctx: &Ctx, out: &mut ShardOut) {
+    let n_map = ctx.share(ctx.by_tier(5000, 150_000)) as u32;
+    let n_set = ctx.share(ctx.by_tier(1000, 30_000)) as u32;
+    drive(ctx, "map", ctx.shard_seed(1), n_map, seq_case_strategy(false, 160), out, |c| {
+        let s = run_map_case(c, C04_OR).map_err(|f| to_casefail("C04", f))?;
+        let mut cl = stats_classes(&s);
+        cl.push(("cases_reclaiming_before_teardown", (s.reclaimed_before_teardown > 0) as u64));
+        cl.push(("cases_with_key_clones", (s.key_clones > 0) as u64));
+        cl.push(("refused_try_inserts", s.refused_try_inserts));
+        Ok(CaseInfo { nontrivial: s.reclaimed_before_teardown > 0 && s.key_clones > 0, classes: cl, evaluations: 1, sub_hashes: vec![] })
+    });
+    drive(ctx, "set", ctx.shard_seed(2), n_set, seq_case_strategy(true, 120), out, |c| {
+        let s = run_set_case(c, C04_OR).map_err(|f| to_casefail("C04", f))?;
+        Ok(CaseInfo { nontrivial: false, classes: vec![("set_cases", 1)], evaluations: 1, sub_hashes: vec![] })
+    });
+    let pool = crate::sched::Pool::new();
+    let b = super::concchecks::budget_for(ctx.tier, ctx.shard_seed(6));
+    super::concchecks::C04C.run(ctx, &pool, 31, ctx.share(ctx.by_tier(240, 8_000)) as u32, &b, out);
+}
+
+fn c04_replay(sub: &str, case: &Value) -> Result<(), CaseFail> {
+    match sub {
+        "conc" => super::concchecks::C04C.replay(&crate::sched::Pool::new(), case, &super::concchecks::budget_for(Tier::Thorough, 1)),
+        _ => replay_seq("C04", sub, case, C04_OR),
+    }
+}
+
+/* ------------------------------------ C06 ------------------------------------ */
+
+const C06_OR: Oracles = Oracles { returns: false, quiescent: true, ledger: false, canary: false, capacity: false, cmp_bound: true, growth: false };
+
+/// collision-heavy configurations and adversarial insertion / removal orders
+fn c06_case_strategy() -> impl Strategy<Value = SeqCase> {
+    let hm = prop_oneof![3 => Just(HMode::Const0), 2 => Just(HMode::ConstMax), 3 => Just(HMode::SameBin), 2 => Just(HMode::High), 2 => Just(HMode::Mod4), 1 => Just(HMode::Identity)];
+    let cap = prop_oneof![3 => Just(43u32), 2 => Just(0u32), 1 => Just(16u32), 2 => Just(100u32), 1 => Just(300u32)];
+    let uni = prop_oneof![2 => Just(24u16), 3 => Just(64u16), 3 => Just(128u16), 2 => Just(200u16)];
+    (hm, cap, uni, facade_strategy(), batch_strategy()).prop_flat_map(|(hmode, capacity, universe, facade, batch)| {
+        let keymap = if hmode == HMode::Identity { KeyMap::Mixed } else { KeyMap::Dense };
+        let cfg = Cfg { hmode, capacity, facade, batch, universe, keymap, set: false };
+        let u = universe;
+        let pattern = prop_oneof![
+            // ascending fill, then remove from the front (delete-root-like), zig-zag, random
+            3 => (8u16..u, 0u16..u).prop_map(move |(n, d)| vec![Op::Fill(0, n), Op::Drain(0, d.min(n))]),
+            2 => (8u16..u).prop_map(move |n| {
+                let mut v = Vec::new();
+                for i in (0..n).rev() {
+                    v.push(Op::Insert(i));
+                }
+                v
+            }),
+            2 => (8u16..u).prop_map(move |n| {
+                let mut v = Vec::new();
+                for i in 0..n / 2 {
+                    v.push(Op::Insert(i));
+                    v.push(Op::Insert(n - 1 - i));
+                }
+                v
+            }),
+            2 => (8u16..u, any::<u16>()).prop_map(move |(n, step)| {
+                // fill, then remove in a stride order (keeps hitting interior nodes)
+                let mut v = vec![Op::Fill(0, n)];
+                let st = (step % n.max(1)) | 1;
+                let mut x = 0u16;
+                for _ in 0..(n * 3 / 4) {
+                    v.push(Op::Remove(x % n));
+                    x = x.wrapping_add(st);
+                }
+                v
+            }),
+            3 => proptest::collection::vec(prop_oneof![5 => (0..u).prop_map(Op::Insert), 4 => (0..u).prop_map(Op::Remove), 1 => (0..u).prop_map(|k| Op::Compute(k, Act::Remove)), 1 => (0..u).prop_map(Op::Get), 1 => (0u16..400).prop_map(Op::Reserve), 1 => pred_strategy().prop_map(Op::Retain)], 20..160),
+        ];
+        (pattern.clone(), pattern).prop_map(move |(a, b)| {
+            let mut ops = a;
+            ops.extend(b);
+            SeqCase { cfg: cfg.clone(), ops }
+        })
+    })
+}
+
+fn c06_shard(ctx: &Ctx, out: &mut ShardOut) {
+    let n = ctx.share(ctx.by_tier(2500, 80_000)) as u32;
+    drive(ctx, "map", ctx.shard_seed(1), n, c06_case_strategy(), out, |c| {
+        let s = run_map_case(c, C06_OR).map_err(|f| to_casefail("C06", f))?;
+        let mut cl = stats_classes(&s);
+        cl.push(("removals_from_trees_of_16_or_more", s.tree_removals_big));
+        Ok(CaseInfo { nontrivial: s.tree_removals_big > 0, classes: cl, evaluations: s.steps.max(1), sub_hashes: vec![] })
+    });
+}
+
+fn c06_replay(sub: &str, case: &Value) -> Result<(), CaseFail> {
+    replay_seq("C06", sub, case, C06_OR)
+}
+
+/* ------------------------------------ C14 ------------------------------------ */
+
+const C14_OR: Oracles = Oracles { returns: false, quiescent: false, ledger: false, canary: false, capacity: true, cmp_bound: false, growth: false };
+
+fn c14_case_strategy() -> impl Strategy<Value = SeqCase> {
+    (capacity_strategy(), facade_strategy(), prop_oneof![Just(16u16), Just(32u16), Just(64u16), Just(200u16)]).prop_flat_map(|(capacity, facade, universe)| {
+        let cfg = Cfg { hmode: HMode::Identity, capacity, facade, batch: 8, universe, keymap: KeyMap::Dense, set: false };
+        let u = universe;
+        let op = prop_oneof![
+            20 => (0..u).prop_map(Op::Insert),
+            4 => (0..u).prop_map(Op::TryInsert),
+            8 => (0..u).prop_map(Op::Remove),
+            3 => (0..u).prop_map(Op::RemoveEntry),
+            8 => (0..u).prop_map(|k| Op::Compute(k, Act::Remove)),
+            2 => (0..u).prop_map(|k| Op::Compute(k, Act::Inc)),
+            3 => pred_strategy().prop_map(Op::Retain),
+            3 => pred_strategy().prop_map(Op::RetainForce),
+            1 => Just(Op::Clear),
+            2 => (0u16..300).prop_map(Op::Reserve),
+            2 => (proptest::collection::vec(0..u, 0..40), any::<u8>()).prop_map(|(i, h)| Op::Extend(i, h)),
+            8 => (0..u, 1u16..30).prop_map(|(a, n)| Op::Fill(a, n)),
+            4 => (0..u, 1u16..30).prop_map(|(a, n)| Op::Drain(a, n)),
+            2 => (0..u).prop_map(Op::Get),
+        ];
+        proptest::collection::vec(op, 0..120).prop_map(move |ops| SeqCase { cfg: cfg.clone(), ops })
+    })
+}
+
+#[derive(Clone, Debug, serde::Serialize, serde::Deserialize)]
+pub struct SweepCase {
+    /// 0 = with_capacity(c) then fill c; 1 = pre-fill `pre`, reserve(c), then c more
+    pub kind: u8,
+    pub c: u32,
+    pub pre: u32,
+}
+
+fn table_len(m: &flurry::HashMap<u32, u32, HB>) -> usize {
+    unsafe { m.verif_table_len() }
+}
+
+fn run_sweep_case(c: &SweepCase) -> Result<(), String> {
+    let m = if c.kind == 0 { flurry::HashMap::<u32, u32, HB>::with_capacity_and_hasher(c.c as usize, HB(HMode::Identity)) } else { flurry::HashMap::<u32, u32, HB>::with_hasher(HB(HMode::Identity)) };
+    let g = m.guard();
+    if c.kind == 0 && c.c == 0 {
+        if table_len(&m) != 0 {
+            return Err("with_capacity(0) allocated a table".into());
+        }
+        if flurry::HashMap::<u32, u32>::new().len() != 0 || table_len(&flurry::HashMap::<u32, u32, HB>::default()) != 0 {
+            return Err("new()/default() allocated a table".into());
+        }
+        return Ok(());
+    }
+    let mut next = 0u32;
+    if c.kind == 1 {
+        for _ in 0..c.pre {
+            m.insert(next, next, &g);
+            next += 1;
+        }
+        m.reserve(c.c as usize, &g);
+    }
+    let n0 = table_len(&m);
+    if n0 == 0 || !n0.is_power_of_two() || n0 > (1 << 30) {
+        return Err(format!("table length {} after {}", n0, if c.kind == 0 { format!("with_capacity({})", c.c) } else { format!("{} inserts and reserve({})", c.pre, c.c) }));
+    }
+    for i in 0..c.c {
+        m.insert(next, next, &g);
+        next += 1;
+        let n = table_len(&m);
+        if n != n0 {
+            return Err(format!(
+                "{}: the table grew from {} to {} bins at entry {} of the {} it was sized for (identity-hashed consecutive keys: no collisions beyond the table length)",
+                if c.kind == 0 { format!("with_capacity({})", c.c) } else { format!("{} entries + reserve({})", c.pre, c.c) },
+                n0,
+                n,
+                i + 1,
+                c.c
+            ));
+        }
+    }
+    if m.len() as u32 != next {
+        return Err(format!("len() = {} after {} distinct inserts", m.len(), next));
+    }
+    Ok(())
+}
+
+fn c14_shard(ctx: &Ctx, out: &mut ShardOut) {
+    let n = ctx.share(ctx.by_tier(4000, 120_000)) as u32;
+    drive(ctx, "map", ctx.shard_seed(1), n, c14_case_strategy(), out, |c| {
+        let s = run_map_case(c, C14_OR).map_err(|f| to_casefail("C14", f))?;
+        let mut cl = stats_classes(&s);
+        cl.push(("removals_within_2_of_threshold", s.removal_near_threshold));
+        Ok(CaseInfo { nontrivial: s.removal_near_threshold > 0, classes: cl, evaluations: s.steps.max(1), sub_hashes: vec![] })
+    });
+    // capacity sweep: an enumeration, sharded by residue class
+    let max_c: u32 = ctx.by_tier(2048, 8192) as u32;
+    let mut cases: Vec<SweepCase> = (0..=max_c).map(|c| SweepCase { kind: 0, c, pre: 0 }).collect();
+    let top = ctx.by_tier(17, 21) as u32;
+    for p in 12..=top {
+        for d in [-1i64, 0, 1] {
+            cases.push(SweepCase { kind: 0, c: ((1i64 << p) + d) as u32, pre: 0 });
+        }
+    }
+    for a in (1..=max_c / 2).step_by(3) {
+        for pre in [0u32, 1, 5, 12, 13, 100] {
+            cases.push(SweepCase { kind: 1, c: a, pre });
+        }
+    }
+    for (i, c) in cases.iter().enumerate() {
+        if i % ctx.nshards != ctx.shard {
+            continue;
+        }
+        let js = serde_json::to_string(c).unwrap();
+        ctx.mark_inflight("sweep", &js);
+        out.evaluations += 1;
+        match run_sweep_case(c) {
+            Ok(()) => {
+                out.nontrivial.insert(hash_str(&js));
+                if c.c == 1000 {
+                    out.sample(serde_json::json!({"sub": "sweep", "case": c}), 6);
+                }
+            }
+            Err(m) => {
+                out.violations.push(Viol { prop: "C14".into(), msg: format!("[C14] {}", m), replay: serde_json::json!({"sub": "sweep", "case": c}) });
+                break;
+            }
+        }
+    }
+    out.class("sweep_cases", (cases.len() / ctx.nshards) as u64);
+    out.exhaustive_parts.push(format!("with_capacity(c) for every c in 0..={} and 2^p-1, 2^p, 2^p+1 for p in 12..={}; reserve(a) for every third a up to {} on six fill levels", max_c, top, max_c / 2));
+}
+
+fn c14_replay(sub: &str, case: &Value) -> Result<(), CaseFail> {
+    if sub == "sweep" {
+        let c: SweepCase = serde_json::from_value(case.clone()).map_err(|e| CaseFail { prop: "C14".into(), msg: format!("bad replay file: {}", e) })?;
+        return run_sweep_case(&c).map_err(|m| CaseFail { prop: "C14".into(), msg: format!("[C14] {}", m) });
+    }
+    replay_seq("C14", sub, case, C14_OR)
+}
+
 pub fn defs() -> Vec<PropDef> {
     vec![PropDef {
         id: "C02",
@@ -186,5 +453,45 @@ pub fn defs() -> Vec<PropDef> {
         replay: c02_replay,
         shards: super::sixteen,
         watchdog: |t| if t == Tier::Quick { 900 } else { 6 * 3600 },
+    },
+    PropDef {
+        id: "C05",
+        level: "exploration",
+        rule: "every step of proptest-generated sequential histories (map and set; all hashers, capacities, facades) and the join point of every explored concurrent execution is a quiescent point; there iteration (iter/keys/values) must yield exactly the keys for which get succeeds, once each and with the same value, len/is_empty must agree, and the inspector must find: power-of-two table, every node in bin hash&(n-1), no key twice, no forwarding marker, next_table null, size_ctl = 0.75 n, count = number of nodes, all bin locks free, tree lock states 0, red-black/list consistency of tree bins; evaluations = quiescent points checked; non-trivial = the history contained a completed resize or tree conversion; distinct = hash of the case (x preemptions)",
+        assumptions: &["the inspector reads the structure without synchronisation while no operation is in flight", "concurrent part: as C01"],
+        run_shard: c05_shard,
+        replay: c05_replay,
+        shards: super::sixteen,
+        watchdog: |t| if t == Tier::Quick { 1200 } else { 8 * 3600 },
+    },
+    PropDef {
+        id: "C04",
+        level: "exploration",
+        rule: "generated sequential histories (all operations incl. refused try_insert, clear, retain, resize, treeify/untreeify; collector batch sizes 1..120; guards per operation / long-lived / refreshed) and explored concurrent executions; every K and V instance ever created (incl. clones made by the map) is ledgered; after dropping the map each must have been dropped exactly once, nothing still stored may be dropped earlier, a displaced value must not be dropped while a harness guard created before the displacing call is alive, references obtained under a guard must be intact when it is released; non-trivial = at least one displaced value was reclaimed before map teardown and at least one key clone was made; distinct = hash of the case",
+        assumptions: &["only K/V instances are ledgered (node/table allocations are covered by C03's allocator oracle)", "guards created inside pin() are invisible to the 'live observer' rule (sound: fewer guards judged)"],
+        run_shard: c04_shard,
+        replay: c04_replay,
+        shards: super::sixteen,
+        watchdog: |t| if t == Tier::Quick { 1200 } else { 8 * 3600 },
+    },
+    PropDef {
+        id: "C06",
+        level: "exploration",
+        rule: "collision generators only (constant hashes; same bin with distinct hashes; 4 bins), tables >= 64 reached by capacity or growth, 8-200 colliding keys, insertion/removal orders from ascending/descending/zig-zag/stride patterns and random mixes, trees created by treeification and by resize splits; after every step the inspector checks each tree bin (BST order by (hash,key), root black, no red-red, equal black height, parent/child and prev/next consistency, list = tree) and get() of every universe key (present or absent) in a bin of n >= 8 entries of a table >= 64 must use <= ceil(4*log2(n+1))+2 key comparisons (counted by the key type); evaluations = steps checked; non-trivial = a removal from a tree of >= 16 nodes happened; distinct = hash of the case",
+        assumptions: &["comparison counts are those of the instrumented key type's Eq/Ord"],
+        run_shard: c06_shard,
+        replay: c06_replay,
+        shards: super::sixteen,
+        watchdog: |t| if t == Tier::Quick { 1200 } else { 8 * 3600 },
+    },
+    PropDef {
+        id: "C14",
+        level: "exploration",
+        rule: "(a) enumeration: with_capacity(c) then c identity-hashed consecutive keys must not change the table length, for every c in the swept range and around powers of two; reserve(a) likewise on six fill levels; capacity 0 allocates nothing; (b) generated sequences over identity-hashed dense keys: after every operation the table length must be a power of two <= 2^30, never shrink, and change only by a power-of-two factor and only through reserve/extend or an insert of a new key that brought the count to >= 0.75 n or met a bin of >= 8 nodes in a table < 64 - never through remove, remove_entry, a removing compute_if_present, retain, retain_force, clear or replacing insert; evaluations = steps + sweep cases; non-trivial = a removal executed with the count within 2 of the threshold (sequences) / every sweep case; distinct = hash of the case",
+        assumptions: &["capacities above 2^21 are not exercised (memory)"],
+        run_shard: c14_shard,
+        replay: c14_replay,
+        shards: super::sixteen,
+        watchdog: |t| if t == Tier::Quick { 1200 } else { 8 * 3600 },
     }]
 }
